@@ -34,6 +34,32 @@ CLAIMS = {
              "compared form against form, the real Hedger branch against branch (hedge, portfolio, P&L, two criteria), and the inputs recorded by the model "
              "double are validated step by step against the specification's rows (prev_hedge = previous output, zeros of width H first).",
         note="Trusted: TLC, torch. time_to_maturity compared with absolute tolerance 4*eps*(T-1)*dt; everything else bitwise."),
+
+    "C04": dict(
+        engine="Risk.tla / TLC -> value replay + axiom replay",
+        technique="TLA+ exact-rational definitions with every axiom as a TLC invariant over all lattice samples and pairs; value conformance and axiom replay on the implementation",
+        category=MC, design_ref="DESIGN.md 3 C04",
+        text="TLC checks monotonicity, cash invariance, convexity, ES homogeneity/monotonicity in p, ERM monotonicity in a and all bounds as invariants over all "
+             "integer samples and sample pairs of the lattice in exact arithmetic; the implementation is bound by exact value conformance on every lattice "
+             "sample and by evaluating each axiom on the TLC-emitted pairs under rescalings to 1e-6..1e6, large cash shifts and two mixing weights.",
+        note="Trusted: TLC, torch. Bounds: N<=4 (thorough 6), lattice {-2,-1,0,1,3}; convexity at weights 1/2 and 1/4; QCVaR within its documented bisection precision. "
+             "Known finding: quadratic CVaR on concentrated samples (known_findings.json)."),
+    "C05": dict(
+        engine="Risk.tla / TLC -> value replay",
+        technique="TLA+ exact-rational definitions of every criterion evaluated by TLC on all lattice samples; replay into functional forms (all dims/layouts) and modules",
+        category=MC, design_ref="DESIGN.md 3 C05",
+        text="Every criterion is defined in Risk.tla from the property text (sorted-sample ES, order-statistic VaR, active-set QCVaR cross-checked against a grid of w, "
+             "base-2 entropic quantities, isoelastic on squares, OCE), TLC evaluates them on all lattice samples, and the harness replays each sample in up to six "
+             "tensor layouts / dim arguments, with and without target, float64 and float32.",
+        note="Trusted: TLC, one log2/exp in the harness. VaR between prescribed points only required monotone. Known finding: quadratic CVaR on concentrated samples."),
+    "C06": dict(
+        engine="Risk.tla + PriceFlow.tla / TLC -> replay",
+        technique="TLA+ certainty equivalents (Risk.tla) and price/loss dataflow machine over fresh draws (PriceFlow.tla) checked by TLC; behaviours replayed into cash() and a real Hedger on scripted markets",
+        category=MC, design_ref="DESIGN.md 3 C06",
+        text="TLC checks CEBounds and the cash-invariance invariants on all lattice samples and PriceShift/PriceIsLoss/OneDrawPerTime/FreshBuffers on every behaviour of the "
+             "price machine; cash() of every criterion (closed forms and the default search, incl. user subclasses, constants, multi-column, target) is compared with the exact "
+             "certainty equivalent and with the property's own relations; Hedger.price/compute_loss are compared with the machine's exact price on scripted draws.",
+        note="Trusted: TLC, torch, ScriptedPrimary double. Default-search amounts within the documented precision 1e-6."),
 }
 
 NOT_APPLICABLE = [
